@@ -167,6 +167,65 @@ theorem dhcpv6_reparse_plain (d : Dhcpv6) (hi : d.Inv) (hrel : d.isRelay = false
   rw [hs]
 
 
+theorem dhcpv6_sizeAfter_eq (s : Nat) (os : List Opt) (h : s + Dhcpv6.wireSum os < 4294967296) :
+    Dhcpv6.sizeAfter s os = s + Dhcpv6.wireSum os := by
+  unfold Dhcpv6.sizeAfter
+  induction os generalizing s with
+  | nil => simp [Dhcpv6.wireSum]
+  | cons o os ih =>
+    simp only [Dhcpv6.wireSum] at h
+    simp only [List.foldl_cons, Dhcpv6.wireSum]
+    rw [Nat.mod_eq_of_lt (by omega), ih _ (by omega)]; omega
+
+/-- **C03 / DHCPv6, relay messages**: message type, hop count, link and peer address and the option list come back;
+    the two unused bytes of `header_data_` are not on the wire -/
+theorem dhcpv6_reparse_relay (d : Dhcpv6) (hi : d.Inv) (hrel : d.isRelay = true) (hc : ∀ o ∈ d.opts, Dhcpv6.Canon o)
+    (hsmall : Dhcpv6.wireSum d.opts < 4294967296) :
+    Dhcpv6.parse (d.fixedBytes ++ Dhcpv6.optsBytes d.opts)
+      = .ok (⟨d.h.take 2 ++ [0, 0], d.link, d.peer, d.opts, d.optsSize⟩, Inner.none) := by
+  have hfix : d.fixedBytes = d.h.take 2 ++ (d.link ++ (d.peer ++ [])) := by
+    simp only [Dhcpv6.fixedBytes, hrel, if_true, List.append_assoc, List.append_nil]
+  rw [hfix]
+  unfold Dhcpv6.parse
+  have hh4 := hi.hlen
+  obtain ⟨b0, b1, b2, b3, hd⟩ : ∃ b0 b1 b2 b3, d.h = [b0, b1, b2, b3] := by
+    match hdh : d.h, hh4 with
+    | [a, b, c, e], _ => exact ⟨a, b, c, e, rfl⟩
+  have ht2 : d.h.take 2 = [b0, b1] := by rw [hd]; rfl
+  simp only [List.append_assoc, List.append_nil]
+  have hne : (Cursor.ofBytes (d.h.take 2 ++ (d.link ++ (d.peer ++ Dhcpv6.optsBytes d.opts)))).toBool = true := by
+    rw [ofBytes_toBool, ht2]; rfl
+  simp only [hne, Bool.not_true, Bool.false_eq_true, if_false]
+  have hpeek : (Cursor.ofBytes (d.h.take 2 ++ (d.link ++ (d.peer ++ Dhcpv6.optsBytes d.opts)))).peek
+      "DHCPv6::DHCPv6 *stream.pointer()" 0 1 = .ok [b0] := by
+    unfold Cursor.peek rdN Cursor.ofBytes; rw [ht2]; simp
+  simp only [hpeek, bind, Out.bind]
+  have hmt : Cursor.beNat [b0] = d.msgType := by
+    simp [Dhcpv6.msgType, getU8, getBE, slice, hd]
+  have hrel' : (d.msgType == 12 || d.msgType == 13) = true := hrel
+  rw [hmt]
+  simp only [hrel', if_true]
+  have r1 := ofBytes_read_append (d.h.take 2) (d.link ++ (d.peer ++ Dhcpv6.optsBytes d.opts))
+  have hl2 : (d.h.take 2).length = 2 := by rw [ht2]; rfl
+  rw [hl2] at r1
+  simp only [r1]
+  -- the parsed object is a relay message as well: same first byte
+  have hrel2 : Dhcpv6.isRelay ⟨d.h.take 2 ++ List.replicate (4 - 2) 0, List.replicate 16 0, List.replicate 16 0, [], 0⟩ = true := by
+    have : Dhcpv6.msgType ⟨d.h.take 2 ++ List.replicate (4 - 2) 0, List.replicate 16 0, List.replicate 16 0, [], 0⟩ = d.msgType := by
+      simp [Dhcpv6.msgType, getU8, getBE, slice, hd]
+    simp only [Dhcpv6.isRelay, this]; exact hrel
+  simp only [hrel2, Dhcpv6.readRelay, if_true]
+  have rl := ofBytes_read_append d.link (d.peer ++ Dhcpv6.optsBytes d.opts)
+  rw [hi.link] at rl
+  have rp := ofBytes_read_append d.peer (Dhcpv6.optsBytes d.opts)
+  rw [hi.peer] at rp
+  simp only [rl, rp, bind, Out.bind, Out.pure_eq]
+  have hsz : (Cursor.ofBytes (Dhcpv6.optsBytes d.opts)).size = (Dhcpv6.optsBytes d.opts).length := rfl
+  rw [hsz, dhcpv6_parseOpts_optsBytes d.opts hc _ (Nat.le_refl _)]
+  simp only
+  rw [dhcpv6_sizeAfter_eq 0 d.opts (by omega), hi.size]
+  simp
+
 /-! ## DHCP -/
 
 /-- an option the wire can express: 8-bit code; PAD / END carry nothing; otherwise length byte = data length < 256 -/
